@@ -717,6 +717,25 @@ impl AnnotationDataSet {
         self.key_idmap.shrink_to_fit();
     }
 
+    /// Makes sure the next data item that is inserted gets the specified handle, padding the store with gaps if needed.
+    /// Used when deserialising temporary public identifiers, which map to handles directly.
+    pub(crate) fn pad_data_to_handle(&mut self, handle: usize) -> Result<(), StamError> {
+        if self.data.len() > handle {
+            return Err(StamError::OtherError(
+                "unable to resolve temporary public identifiers for annotation data",
+            ));
+        } else if handle > self.data.len() {
+            let additional = handle - self.data.len();
+            self.data.try_reserve(additional).map_err(|_| {
+                StamError::OtherError(
+                    "unable to allocate memory for the gap implied by a temporary public identifier for annotation data",
+                )
+            })?;
+            self.data.resize_with(handle, Default::default);
+        }
+        Ok(())
+    }
+
     /// Strip public identifiers from annotation data
     /// This will not affect any internal references but will render any references from external sources impossible.
     pub fn strip_data_ids(&mut self) {
